@@ -203,12 +203,12 @@ Variable v : ver.
 (** post-order array of a subtree placed at offset [o] *)
 Fixpoint bt_array (o : Z) (T : bt) : list (Z * entry) :=
   match T with
-  | L d => [(o, mkEntry Leaf d)]
-  | N l r =>
+  | BL d => [(o, mkEntry Leaf d)]
+  | BN l r =>
       bt_array o l ++ bt_array (o + bt_size l) r ++
       [(o + bt_size l + bt_size r,
         mkEntry (Node (Stored (o + bt_size l - 1)) (Stored (o + bt_size l + bt_size r - 1)))
-                (bt_data H v (N l r)))]
+                (bt_data H v (BN l r)))]
   end.
 Fixpoint trees_array (o : Z) (Ts : list bt) : list (Z * entry) :=
   match Ts with [] => [] | T :: r => bt_array o T ++ trees_array (o + bt_size T) r end.
@@ -220,8 +220,8 @@ Fixpoint peak_positions (o : Z) (Ts : list bt) : list Z :=
     left children hanging off it *)
 Fixpoint spine_positions (p : Z) (T : bt) : list Z :=
   match T with
-  | L _ => [p]
-  | N l r => p :: (p - bt_size r - 1) :: spine_positions (p - 1) r
+  | BL _ => [p]
+  | BN l r => p :: (p - bt_size r - 1) :: spine_positions (p - 1) r
   end.
 End Arr.
 
@@ -244,7 +244,7 @@ Definition expected_links (n : nat) : list link :=
 (** Which steps are compared against a full from-scratch rebuild (all of them for short
     histories; a deterministic subset for long ones, to bound the cost). *)
 Definition check_step (i : nat) (n : nat) (last : bool) : bool :=
-  (n <=? 40)%nat || (Nat.eqb (i mod 8) 0) || last ||
+  (n <=? 40)%nat || (Nat.eqb (i mod 64) 0) || last ||
   Nat.eqb (2 ^ Nat.log2 n) n || Nat.eqb (2 ^ Nat.log2 (S n)) (S n) || Nat.eqb (2 ^ Nat.log2 (n - 1)) (n - 1).
 
 Fixpoint prop_ops (i : nat) (full : bool) (ls : list data) (ops : list op) (obs : list sobs) : bool :=
@@ -295,7 +295,7 @@ Definition view_ok (H : Z -> list Z -> list Z) (hk : bool) (v : ver) (leaves : l
   list_eqb Z.eqb (map fst peaks) (peak_positions 0 Ts) &&
   match ops with
   | OpTruncate :: _ =>
-      subset_b (spine_positions (length - 1) (last Ts (L (hd (mkData 0 [] 0 0 0 0 [] [] 0 0 0 0 [] [] 0 [] [] 0) leaves))))
+      subset_b (spine_positions (length - 1) (last Ts (BL (hd (mkData 0 [] 0 0 0 0 [] [] 0 0 0 0 [] [] 0 [] [] 0) leaves))))
                (map fst (peaks ++ extra))
   | _ => true
   end.
@@ -308,10 +308,22 @@ Definition final_leaves (leaves : list data) (ops : list op) : list data :=
   fold_left apply_op ops leaves.
 Definition max_leaves (leaves : list data) (ops : list op) : list data :=
   fold_left (fun a s => if (length a <? length s)%nat then s else a) (states leaves ops) leaves.
-(** appended leaves continue the chain: checked on the longest state and every state being a
-    chain follows for prefixes; simple and sufficient: check every state. *)
+(** every intermediate list of leaves is a chain: the initial one is, and each appended leaf
+    continues it (same branch, next height, start = end).  [n] = current number of leaves. *)
+Fixpoint chain_scan (v : ver) (b h0 : Z) (n : Z) (ops : list op) : bool :=
+  match ops with
+  | [] => true
+  | OpAppend d :: r =>
+      wf_data_b v d && (d_branch d =? b) && (d_sh d =? h0 + n) && (d_eh d =? h0 + n) &&
+      chain_scan v b h0 (n + 1) r
+  | OpTruncate :: r => chain_scan v b h0 (n - 1) r
+  end.
 Definition all_chain (v : ver) (leaves : list data) (ops : list op) : bool :=
-  chain_b v leaves && forallb (chain_b v) (states leaves ops).
+  chain_b v leaves &&
+  match leaves with
+  | [] => false
+  | d :: _ => chain_scan v (d_branch d) (d_sh d) (Z.of_nat (length leaves)) ops
+  end.
 
 Definition is_full (leaves : list data) (peaks extra : list (Z * entry)) : bool :=
   match leaves, peaks, extra with
@@ -400,7 +412,7 @@ Definition known_class (c : case) : N :=
 Definition failed {A E} (o : outcome A E) : N := match o with Ok _ => 0 | Err _ => 1 | Panic => 2 end%N.
 Definition vnum (v : ver) : N := match v with V1 => 0 | V2 => 1 | V3 => 2 end%N.
 Definition cs_width (x : Z) : N :=
-  (if x <? 253 then 0 else if x <=? 65535 then 1 else if x <=? 4294967295 then 2 else 3)%N.
+  if x <? 253 then 0%N else if x <=? 65535 then 1%N else if x <=? 4294967295 then 2%N else 3%N.
 (** trailing ones of [n] (number of merges of the next append), capped *)
 Fixpoint trailing_ones (fuel : nat) (n : Z) : N :=
   match fuel with O => 0%N | S f => if Z.odd n then N.succ (trailing_ones f (n / 2)) else 0%N end.
